@@ -64,7 +64,7 @@ theorem walk_atom (F : TabFacts tab idxTab tbl) (w : Widths) (k : Nat) (a : Atom
       · rcases hms with h' | h'
         · exact absurd (e1 _ h') h2
         · simp [extra, h1, h2, h, h']
-  obtain ⟨c0, r, hstrip, hhead, htok⟩ := written_tokens _ hok (Or.inl ⟨w, k + 1, a, rfl⟩) hplain _ _ htoks
+  obtain ⟨c0, r, hstrip, hhead, htok, _⟩ := written_tokens _ hok (Or.inl ⟨w, k + 1, a, rfl⟩) hplain _ _ htoks
   obtain ⟨d1, _, d3⟩ := digit_head (k + 1) c0 hhead
   rw [walk_content_line _ _ (by intro n h; cases h) c0 r hstrip d1]
   rw [htoks] at htok
@@ -179,7 +179,7 @@ theorem walk_inter (F : TabFacts tab idxTab tbl) (corr : List (Int × Nat)) (w :
       obtain ⟨n, _, rfl⟩ := h
       exact plain_toString n
     · exact (List.all_eq_true.mp hpl) t h
-  obtain ⟨c0, r, hstrip, hhead, htok⟩ := written_tokens _ hok
+  obtain ⟨c0, r, hstrip, hhead, htok, _⟩ := written_tokens _ hok
     (Or.inr ⟨w, _, _, _, _, rfl⟩) hplain (toString a) tl htl
   obtain ⟨d1, _, d3⟩ := digit_head a c0 hhead
   rw [walk_content_line _ _ (by intro n h; simp [C02.interLine] at h) c0 r hstrip d1]
